@@ -84,6 +84,10 @@ def gen_case(rng, nmax=30, metrics=('euclidean', 'euclidean', 'cityblock', 'cheb
             'coords_layout': rng.choice([None, None, None, 'F', 'strided', 'list'] + (['flat', 'flat'] if c.shape[1] == 1 else [])), 'values_as_list': rng.random() < 0.15, 'estimator': est, 'bin_func': bf, 'bins': bins,
             'maxlag': maxlag, 'n_lags': n_lags, 'dist_func': metric,
             'tags': {'points': kind, 'values': vkind, 'maxlag_form': mform, 'dim': int(c.shape[1]), 'n': n}}
+    if bins is not None and metric == 'euclidean' and max(bins) > 2.0 and rng.random() < 0.35:
+        # explicit edges together with an absolute maxlag below the largest edge (the edges decide; nothing may be truncated below them)
+        case['maxlag_with_bins'] = float(max(1.0, math.floor(max(bins) * 0.5 * 8) / 8.0 + 1.0 / 64))
+        case['tags']['maxlag_form'] = 'abs-with-explicit-edges'
     if cross:
         _, v2 = gen.values(rng, n)
         case['values2'] = v2.tolist()
@@ -97,6 +101,7 @@ def gen_cases(ctx, count, nmax=30, **kw):
 def build(case, **over):
     c = np.array(case['coords'], dtype=float)
     table = over.pop('values_table', None)        # a caller-owned (n,2) table handed over as it is
+    cover = over.pop('coordinates_override', None)    # e.g. a pre-built MetricSpace
     v = np.array(case['values'], dtype=float) if table is None else table
     vd = case.get('values_dtype')
     if table is None and vd and np.all(v == np.round(v)) and (vd != 'uint8' or (v.min() >= 0 and v.max() <= 255)) and case.get('values2') is None:
@@ -109,7 +114,10 @@ def build(case, **over):
               maxlag=case['maxlag'], fit_method=None)
     if case.get('bins') is not None:
         kw['bin_func'] = np.array(case['bins'], dtype=float)
-        kw.pop('maxlag')
+        if case.get('maxlag_with_bins') is None:
+            kw.pop('maxlag')
+        else:
+            kw['maxlag'] = case['maxlag_with_bins']        # explicit edges AND an (absolute) maxlag: the edges decide
     else:
         kw['bin_func'] = case['bin_func']
     kw.update(over)
@@ -129,6 +137,8 @@ def build(case, **over):
         c = c.ravel()          # one-dimensional coordinates given as a flat vector
     if case.get('values_as_list') and table is None:
         v = v.tolist()
+    if cover is not None:
+        c = cover
     return Variogram(c, v, **kw)
 
 
@@ -379,9 +389,9 @@ def check_estimators(ctx, model, count):
                 ctx.problem('correspondence', 'estimators.%s differs from its exact model' % name,
                             {'estimator_input': x}, {'model': None if mv is None else float(mv), 'impl': iv})
     # class sizes around Genton's documented N >= 500 switch (k/q = 1/4) and large classes: documented formulas (float)
-    for n in (2, 3, 499, 500, 501, 640):
+    for n in (1, 2, 3, 499, 500, 501, 640, 1100, 1300):
         arr = np.array([rng.randint(0, 4096) / 64.0 for _ in range(n)], dtype=float)
-        for name in ('matheron', 'cressie', 'dowd', 'genton'):
+        for name in (('matheron', 'cressie', 'dowd', 'genton') if n < 1000 else ('genton', 'dowd')):
             want = doc_estimator(name, arr)
             got = float(getattr(estimators, name)(arr))
             if not gen.close(want, got, 1e-9, 1e-12):
